@@ -90,6 +90,11 @@ def initTruth (c : Case) : Truth :=
 /-- shared: run model, compare, judge with `oracle` -/
 def judgeWith (prop : String) (c : Case) (oracle : Case → List Out → Option String) : Verdict :=
   let model := runOps c.zts (prepare c.nch c.npre c.nsamp c.saved) c.ops
+  -- hypothesis of the no-out-of-range / no-crash theorems, checked on what the real `zeroThreshold`
+  -- returned: the kink fit moves a trigger by at most one sample
+  match (c.zts.flatten.find? fun e => e.2 < -1 || e.2 > 1) with
+  | some e => .viol s!"{prop}:kink-shift-range the kink-model fit moved the trigger at frame {e.1} by {e.2} samples (zeroThreshold promises at most one)"
+  | none =>
   match c.outs with
   | none =>
     -- the implementation crashed: that alone violates "no stream content ... makes processing crash"
